@@ -133,6 +133,15 @@ def valid_context(rng, entry):
             'r_attr': 'rattr', 'tok': tok, 'n_jobs': rng.choice([1, 1, 2]),
             'l_out_attrs': gen.random_out_attrs(rng, L, 'lid', 'lattr'),
             'r_out_attrs': gen.random_out_attrs(rng, R, 'rid', 'rattr')}
+    if rng.random() < 0.15:
+        # a column the call never names carries a label that is not a string (a year, a tuple, None)
+        for spec in (L, R):
+            lab = rng.choice([2020, 0, (1, 'a'), None, 1.5])
+            spec['cols'] = list(spec['cols']) + [lab]
+            spec['data'][lab] = ['z'] * T.spec_len(spec)
+            spec['dtypes'][lab] = 'object'
+    if rng.random() < 0.2:
+        call['show_progress'] = True
     if entry in T.JOINS:
         call['api'] = entry
         call['allow_missing'] = rng.random() < 0.3
@@ -479,6 +488,8 @@ def accept_case(case, rec, ssj):
                 call['threshold_np'] = how
             rec.count('acceptance_numpy_thresholds')
             rec.add('numpy_threshold_types', how)
+    if rng.random() < 0.3 and call.get('api') != 'profile':
+        call['show_progress'] = True          # the documented default
     rec.count('acceptance_cases')
     tag = '%s left=%s right=%s dtype=%s allow_missing=%r n_jobs=%r%s: ' % (
         entry, ls, rs, dtype, am, case['n_jobs'], ' key==join attribute' if case.get('keyjoin') else '')
